@@ -308,9 +308,29 @@ pub fn run_filtered(cli: &Cli, only: Option<&str>) -> i32 {
         let reached = run.client.enc_request.is_some();
         let sample = json!({"case": case.class, "result": run.result.kind(), "clientbound": run.client.names(), "adapter_calls": run.calls.iter().map(|c| c.call.name()).collect::<Vec<_>>()});
         let wit: Vec<(Finding, serde_json::Value)> = findings.into_iter().map(|f| { let w = witness(&case.sc, &run, f.detail.clone()); (f, w) }).collect();
-        (case.class.clone(), reached, sample, wit, facts(&run))
+        let token = run.client.enc_request.as_ref().map(|e| e.1.clone());
+        (case.class.clone(), reached, sample, wit, facts(&run), token)
     });
-    for (i, (class, reached, sample, findings, f)) in results.into_iter().enumerate() {
+    // "the verify token issued on this connection": a token that is handed out twice lets a recorded
+    // Encryption Response of one connection pass on another
+    let mut tokens_seen: std::collections::HashMap<Vec<u8>, String> = std::collections::HashMap::new();
+    let mut token_reuse_reported = false;
+    for (i, (class, reached, sample, findings, f, token)) in results.into_iter().enumerate() {
+        if let Some(t) = token {
+            report.count("verify tokens compared for freshness", 1);
+            if let Some(first) = tokens_seen.get(&t) {
+                if !token_reuse_reported {
+                    token_reuse_reported = true;
+                    report.violation(
+                        "verify-token-reused-across-connections",
+                        &format!("two connections were issued the same verify token ({} bytes): the answer recorded on one passes on the other", t.len()),
+                        json!({"token_hex": vp_common::report::hex(&t), "first_connection": first, "second_connection": class}),
+                    );
+                }
+            } else {
+                tokens_seen.insert(t, class.clone());
+            }
+        }
         report.eval(if reached { Some(&class) } else { None });
         if i % 97 == 0 {
             report.sample(sample);
